@@ -135,6 +135,7 @@ func runC17(c *Ctx) []Obligation {
 	}
 	out = append(out, c.Rows(rows)...)
 	out = append(out, c.supplyMethods(P)...)
+	out = append(out, moduleSendDirections(c, P)...)
 	return out
 }
 
@@ -247,6 +248,7 @@ func runC18(c *Ctx) []Obligation {
 	out := c.Rows(rows)
 	out = append(out, c.safeSubUsed(P), c.setCoinsAccountOfAddr(P))
 	out = append(out, c.whoMayCall(P, "balance.writers", fnSetCoins, []string{kA + `(AddCoins|SubtractCoins)`}, "balances are overwritten only by the read-modify-write steps AddCoins and SubtractCoins"))
+	out = append(out, moduleSendDirections(c, P)...)
 	return out
 }
 
